@@ -26,23 +26,28 @@ ID = "C06"
 LEVEL = "proof"
 STRENGTH = "partial"   # never_early only under `Guard` (open F5b); liveness only under `LGuard` (open F8) and as reachability
 ENGINES = ["lean-model", "pyextract", "purediff", "kopfsim"]
-TIE = ("T (conditions and effects of the finalizer block of process_resource_causes: AST → Lean, re-proved equal to the model, "
-       "and `decision` = their composition) + D (real finalizers.block_deletion/allow_deletion and Patch.as_json_patch on generated "
-       "lists) + S (every cycle of whole-operator simulations: queued fns, JSON-patch outcome, carried fns)")
-LEVEL_TEXT = ("Lean theorems for ALL finalizer lists / fn sequences / decision inputs / label lists of the LTS (deletion requests, "
-              "label edits, foreign finalizer edits, handler & daemon completions, re-scheduling of purged deletion handlers, genuine or "
-              "injected 422, restarts, foreign writes between any two requests of a cycle). Full theorems: foreign_untouched, "
-              "order_preserved, block/allow specs and idempotence, allow_after_block, patch_is_fn_of_tested, foreign_untouched_lts, "
-              "decision_spec, conflict_carries_nothing, cycle_decides_anew, add_on_match, remove_on_mismatch, add_remove_on_match, "
-              "released_in_one_quiet_cycle, and — on the wake-up layer (events consumed one per cycle, early exits only while another "
-              "event is queued, sleep-then-touch after delays iff the patch was empty or changed nothing; wakeup_layer_refines) — no_lost_wakeup and released_under_fairness "
-              "(from every reachable waiting & settled state at most five enabled operator steps release the object) under the guard "
-              "'no 422 injected without a concurrent write' (necessary: injected_422_loses_wakeup; no-op patches are free since "
-              "repair 7224f57, the former F7 history is a regression example). never_early is FALSE of the code in one shape (open finding F5b): proved are "
-              "never_early_partial / never_early_inv_partial under exactly that guard (removal queued ⇒ no foreign write between the "
-              "decision and the cycle's own merge patch; any number of 422), the negation never_early_fails and "
-              "stale_release_via_merge_witness. `required` is evaluated after the step and is not sticky (Env.delReset). Both "
-              "witnesses are replayed on the real operator every run.")
+TIE = ("T (conditions and effects of the finalizer block of process_resource_causes + the carry filter of process_resource_event: "
+       "AST → Lean, re-proved equal to the model, and `decision` = their composition) + D (real finalizers.block_deletion/"
+       "allow_deletion and Patch.as_json_patch on generated lists) + S (every cycle of whole-operator simulations: queued fns, delays "
+       "flag, JSON-patch outcome, carried fns, sleep-then-touch) + A (trace acceptance: one label per real step of the object's life — "
+       "foreign write / mark / finalizer edit / cycle start on ITS event body / merge response / JSON-patch outcome / touch / restart — "
+       "replayed through `lstep`: every label enabled, abstract state equal after each)")
+LEVEL_TEXT = ("Lean theorems for ALL finalizer lists / fn sequences / decision inputs / label lists of the LTS (deletion requests, label "
+              "edits, foreign finalizer edits and other writes, cycles on stale event bodies, handler & daemon completions, "
+              "re-scheduling of purged deletion handlers, genuine or injected 422, restarts, foreign writes between any two requests "
+              "of a cycle). FULL theorems: foreign_untouched, order_preserved, block/allow specs and idempotence, allow_after_block, "
+              "patch_is_fn_of_tested, foreign_untouched_lts, decision_spec, conflict_carries_nothing, cycle_decides_anew, add_on_match, "
+              "remove_on_mismatch, add_remove_on_match, released_in_one_quiet_cycle, wakeup_layer_refines. GUARDED (hence STRENGTH = "
+              "partial): (1) never_early is FALSE of the code in one shape (open F5b): never_early_partial / never_early_inv_partial "
+              "hold under exactly the gap (when the cycle's own merge patch is sent with a removal queued, nothing requires the "
+              "finalizer again; harmless writes and any number of 422 are allowed), with never_early_fails + "
+              "stale_release_via_merge_witness; (2) liveness: no_lost_wakeup (an operator step is always enabled for a waiting "
+              "object) under LGuard = no 422 injected without a write (injected_422_loses_wakeup) and no handler-supplied no-op fns "
+              "in a cycle's patch (open F8/F9, noop_fn_loses_wakeup); 'once all are finished it is removed' as an INEVITABILITY has no "
+              "theorem: release_reachable_when_quiet is reachability by the operator's steps alone with the environment's part of the "
+              "cycle labels chosen quiet (consistent, no other delay, no re-scheduling) and all queued events already marked. "
+              "'Abandoned after its timeouts' is an environment label here (C09 owns stop_daemons' stages). The LTS is "
+              "trace-validated (tie A).")
 THEOREMS = [("Kopf.Props.C06", "Kopf.C06." + n) for n in [
     "foreign_untouched", "order_preserved", "block_spec", "allow_spec", "block_idempotent", "allow_idempotent",
     "allow_after_block", "patch_is_fn_of_tested", "foreign_untouched_lts", "decision_spec",
@@ -53,28 +58,33 @@ THEOREMS = [("Kopf.Props.C06", "Kopf.C06." + n) for n in [
 TIE_THEOREMS = [("Kopf.Tie.C06", "Kopf.C06.Tie." + n) for n in [
     "mustBlock_eq", "add_eq", "remove_eq", "early_eq", "release_eq", "effects_eq", "decision_eq", "carry_eq"]]
 RULE = ("D: finalizer lists over an alphabet with the own name 0-3 times, look-alikes, unicode, empty/absent containers, and fn "
-        "sequences of length 0-4 through the real functions and Patch.as_json_patch; S: seeded scenarios with 0-2 deletion handlers "
-        "(optional/mandatory, label filters, outcome scripts, retries), daemons (obey/cancel/ignore/exit, cancellation timeouts), "
-        "timers, non-requiring handlers, event handlers with constant results (no-op merge content), label/spec edits, foreign "
-        "finalizer edits, strip of the own finalizer, deletion at random moments, stops/kills/restarts, slips (a foreign write right "
-        "before the operator's n-th PATCH) and injected 422; one case = one processing cycle (decision incl. the delays flag, "
-        "JSON-patch outcome, carried fns, sleep-then-touch after delays); distinct & non-trivial = distinct abstracted tuples in "
-        "which a fn was queued, carried or a requirement was in force")
-TRUSTED = ["harness/sim (virtual-time loop, fake API server incl. JSON-patch `test` → 422 and deletion by last-finalizer removal, "
+        "sequences of length 0-4 through the real functions and Patch.as_json_patch; S/A: seeded scenarios with 0-2 deletion handlers "
+        "(optional/mandatory, label filters, one function STACKED twice under one id with different filters, outcome scripts, "
+        "retries), daemons (obey/cancel/ignore/exit, cancellation timeouts), timers, non-requiring handlers, event handlers with "
+        "constant results (no-op merge content) or with state-checking patch fns that have nothing to change, label/spec edits, "
+        "foreign finalizer edits, strip of the own finalizer, deletion at random moments, stops/kills/restarts, slips (a foreign "
+        "write right before the operator's n-th PATCH) and injected 422; one case = one processing cycle (decision incl. the delays "
+        "flag, JSON-patch outcome, carried fns, sleep-then-touch) resp. one whole trace (acceptance); distinct & non-trivial = "
+        "distinct abstracted tuples in which a fn was queued, carried or a requirement was in force")
+TRUSTED = ["harness/props/sim_c06.py (stacked registrations, handler-supplied patch fns) on top of harness/sim (virtual-time loop, fake API server incl. JSON-patch `test` → 422 and deletion by last-finalizer removal, "
            "scripted handlers/daemons, attribute-level observation of kopf)",
            "pyextract atom vocabulary for the finalizer block of processing.process_resource_causes",
            "abstraction of a cycle: matching = label filters of the scenario's handlers evaluated on the body the cycle was given; "
            "`consistent` is read off whether process_changing_cause was reached"]
 ASSUMPTIONS = ["handler filters in generated scenarios are label filters only (field/when filters are C15's subject)",
                "foreign actors never add or remove the framework's own finalizer except through the explicit strip op, which the "
-               "oracle attributes to them",
-               "a timer counts as live only while one of its invocations runs (its idle task is not observable in the log)",
-               "the LTS's `decide` reads the server object and the operator's memory at one instant: a stale event body is covered "
-               "(decide earlier, foreign edits afterwards), a daemon exit between the event and its processing is ordered before `decide`",
+               "oracle attributes to them (a trace is replayed up to such a write)",
+               "trace acceptance covers scenarios with at most one mandatory deletion handler (stacked registrations count as one) and "
+               "at most one daemon/timer, where the model's Booleans are exact; others are tied per cycle (S) only",
+               "in the replay the daemon's exit/abandonment and the deletion handler's completion are environment labels reconciled "
+               "from the operator's memory snapshot and the progress records (that stop_daemons stops reporting a delay exactly when "
+               "the task is done or its timeouts have passed is C09's subject)",
                "'finished' in the oracle = the latest handling pass before the instant left the handler finished (record kept, or "
                "final outcome in that pass); a purged-and-reinvoked handler counts as unfinished again",
                "liveness: the oracle judges only histories whose last 25 virtual seconds are quiet and in which no 422 was injected; "
-               "fairness itself (enabled operator steps are eventually taken by asyncio) is not a theorem"]
+               "fairness (enabled operator steps are eventually taken, a consistent quiet cycle eventually comes) is not a theorem",
+               "merge patches with resourceVersion in the body are answered 409 if stale by this property's own worker only "
+               "(harness/props/sim_c06.py); unrepaired kopf never sends one"]
 
 OWN = "kopf.zalando.org/KopfFinalizerMarker"
 LAT = 1.0 / 64
@@ -92,6 +102,8 @@ SIG_F7 = {"site": "application.apply",
           "shape": "never released: delays with a non-empty patch that changes nothing: the sleep-then-touch is skipped and no event follows"}
 SIG_F8 = {"site": "application.apply",
           "shape": "never released: delays with a non-empty patch that sends no request (only transformation fns without operations): taken for a change, the sleep-then-touch is skipped and no event follows"}
+SIG_F9 = {"site": "process_resource_causes+apply",
+          "shape": "never released: cycle entered with a carried handler-supplied fn that has nothing to change: state-dependent part skipped, nothing sent, no further event"}
 SIG_EARLY = {"site": "processing.process_resource_causes", "shape": "own finalizer removed while a finalizer is required"}
 
 
@@ -1090,6 +1102,10 @@ def _classify_stuck(view: View, cycles: list[dict]) -> dict:
     merge, js = _main_requests(view, last) if last else (None, None)
     noop = merge is not None and isinstance(merge.get("result"), dict) and \
         _meta(merge["result"]).get("resourceVersion") == last.get("rv") and js is None
+    carried = (((last or {}).get("mem_before") or {}).get("remaining_patch") or {}).get("fns") or 0
+    if carried and not ap.get("patch") and merge is None and js is None and not last.get("pcc") and \
+            len(ap.get("fns") or []) != len(_own_fns(ap.get("fns") or [])):
+        return SIG_F9
     if ap.get("delays") and not ap.get("patch") and ap.get("fns") and merge is None and js is None:
         return SIG_F8
     if ap.get("delays") and ap.get("patch") and noop:
